@@ -85,6 +85,14 @@ func NewBroker(n *Net) *Broker {
 	return &Broker{Net: n, Subs: map[string]byte{}, q2ids: map[uint16]bool{}, q2store: map[uint16]*Packet{}, st: map[int]*bconn{}, KeepSession: true}
 }
 
+// PacketsOn returns the number of client packets processed on connection id.
+func (b *Broker) PacketsOn(id int) int {
+	if s := b.st[id]; s != nil {
+		return s.npkts
+	}
+	return 0
+}
+
 func (b *Broker) wipe() {
 	b.Subs = map[string]byte{}
 	b.q2ids = map[uint16]bool{}
